@@ -56,7 +56,7 @@ PROPS = {
                  "2^64-1. One case = one (policy, ID map, scheme, subset). Non-trivial: subset neither empty nor full, or policy not a "
                  "plain threshold; distinct = distinct (family, policy, scheme, subset class, field, secret class, ID regime)."),
         "assumptions": COMMON_ASSUME,
-        "quick": {"scale": 1, "shards": 12, "timeout_s": 3000},
+        "quick": {"scale": 1, "shards": 12, "timeout_s": 1800},
         "thorough": {"scale": 8, "shards": 16, "timeout_s": 3600},
     },
     # temporary entry added by the C08 builder (lead: replace/adjust as needed)
